@@ -3,7 +3,9 @@
     in PropFindProofs.v (accounting, request form, status), PropFindScope.v
     (scope of the CalDAV/CardDAV servers), PropFindDav.v (scope of the file
     server) or PropFindSpec.v / PropFindDav.v (the executable specification). *)
-From GW Require Import Base Route RouteProofs PropFind PropFindProofs PropFindScope PropFindSpec PropFindDav.
+From GW Require Import Base.
+From GW Require GoPath Fs DavServer.
+From GW Require Import Route RouteProofs PropFind PropFindProofs PropFindScope PropFindSpec PropFindDav PropFindAgree.
 
 (** ** Accounting *)
 
@@ -52,12 +54,13 @@ Proof. exact in_scope_b_spec. Qed.
 Print Assumptions C11_in_scope_b_spec.
 
 (** WebDAV file server, any tree (any depth and width, names distinct within a
-    directory), any target made of good segments, either spelling: the
+    directory), any target made of good segments without NUL byte (the server
+    refuses a path with one: 400), either spelling: the
     resources answered for, in order, are exactly the nodes of the tree in scope
     ([dav_expected] = the in-scope part of the enumeration [all_nodes] of the
     tree), each under an href that names it; a missing target is a 404. *)
 Theorem C11_scope_dav : forall t rs rt d,
-  tree_ok t = true -> segs_ok rs = true ->
+  tree_ok t = true -> segs_ok rs = true -> nul_free rs = true ->
   match dav_scope t (req_path [] rs rt) d with
   | Ok l => get t rs <> None /\
             exists hf, l = map (fun pn => (hf pn, snd pn)) (dav_expected t d rs) /\
@@ -151,7 +154,7 @@ Proof. exact hier_meets_spec. Qed.
 Print Assumptions C11_hier_meets_spec.
 
 Theorem C11_dav_meets_spec : forall t rs rt ct bd dh,
-  tree_ok t = true -> segs_ok rs = true ->
+  tree_ok t = true -> segs_ok rs = true -> nul_free rs = true ->
   dav_spec t rs ct bd dh (observe (dav_model t (req_path [] rs rt) ct bd dh)) = true.
 Proof. exact dav_meets_spec. Qed.
 Print Assumptions C11_dav_meets_spec.
@@ -160,3 +163,52 @@ Theorem C11_principal_meets_spec : forall cup homesets path ct bd dh,
   principal_spec cup homesets (rid path) ct bd dh (observe (principal_model cup homesets path ct bd dh)) = true.
 Proof. exact principal_meets_spec. Qed.
 Print Assumptions C11_principal_meets_spec.
+
+(** ** Consistency with the file-server stack's model (C01–C05, C17)
+
+    The development has two models of the file server's PROPFIND, each tied to
+    the Go code by its own correspondence check: [PropFind.dav_propfind] (this
+    property) and [DavServer.do_propfind].  They describe the same function:
+    for every sandbox tree [sb] and root with the served directory present,
+    every request path (any byte string), every Depth header text and every
+    form both can express — allprop, propname, a [prop] request for exactly the
+    five properties [ms_entry] records, and the refused ones (no form /
+    undecodable) — the stack's model leaves the state alone and reports the
+    same status (207, or the same 400 / 404) and, entry by entry in the same
+    order, the projection [project] of C11's multi-status onto [ms_entry]: href,
+    is-collection, content-length text, entity tag, last-modified present,
+    values-or-names, content type.  The state is translated by [tr] (a Fs.node
+    at a served path read as a C11 node: length, tag and registered MIME type as
+    the stack computes them). *)
+Theorem C11_agrees_with_file_server_model :
+  forall (root : Fs.path) (sb : option Fs.node) (n0 : Fs.node),
+  Fs.geto sb root = Some n0 ->
+  forall (r : DavServer.request) ct bd,
+  form_matches (DavServer.pf r) ct bd ->
+  let mine := dav_propfind (tr (DavServer.mime_tab r) [] n0) (DavServer.rpath r) ct bd
+                           (depth_hdr_of (DavServer.h_depth r)) in
+  let theirs := DavServer.do_propfind root sb r in
+  fst theirs = sb /\
+  match mine with
+  | Ok l => DavServer.status (snd theirs) = 207%N /\ DavServer.r_ms (snd theirs) = map project l
+  | Err c => DavServer.status (snd theirs) = c /\ DavServer.r_ms (snd theirs) = []
+  | Panic => False
+  end.
+Proof. exact propfind_agree. Qed.
+Print Assumptions C11_agrees_with_file_server_model.
+
+(** The one state C11's model cannot express — nothing mapped at the root —
+    is answered by the stack's model with 400 or 404 and no entry. *)
+Theorem C11_file_server_model_unserved : forall root sb r,
+  Fs.geto sb root = None ->
+  let theirs := DavServer.do_propfind root sb r in
+  fst theirs = sb /\ DavServer.r_ms (snd theirs) = [] /\
+  (DavServer.status (snd theirs) = 400%N \/ DavServer.status (snd theirs) = 404%N).
+Proof. exact propfind_unserved. Qed.
+Print Assumptions C11_file_server_model_unserved.
+
+(** The two transcriptions of Go's path.Clean (GoPath.v of the file-server
+    stack, Route.v of C11/C12) are the same function on all byte strings. *)
+Theorem C11_path_clean_models_agree : forall s, GoPath.clean s = Route.clean s.
+Proof. exact clean_eq. Qed.
+Print Assumptions C11_path_clean_models_agree.
